@@ -13,12 +13,15 @@ use rust_dsymbols::dsets::{DSet, SimpleDSet};
 use rust_dsymbols::generators::dset_generators::DSets;
 use verif_harness::Ctx;
 
-fn enc_sets(sets: &[SimpleDSet], dim: usize) -> String {
+/// `count (size dim set_count op(1,0) … op(size,dim))*` — size, dim and set_count are what the
+/// library reports for each emitted set (`DSet::size`, `DSet::dim`, `DSet::set_count`); the
+/// row width of the op table is the set's own `dim() + 1`.
+fn enc_sets(sets: &[SimpleDSet]) -> String {
     let mut s = sets.len().to_string();
     for ds in sets {
-        s.push_str(&format!(" {} {}", ds.size(), ds.set_count()));
+        s.push_str(&format!(" {} {} {}", ds.size(), ds.dim(), ds.set_count()));
         for d in 1..=ds.size() {
-            for i in 0..=dim {
+            for i in 0..=ds.dim() {
                 s.push(' ');
                 s.push_str(&ds.op(i, d).unwrap_or(0).to_string());
             }
@@ -95,7 +98,7 @@ fn main() {
                         || {
                             let sets: Vec<SimpleDSet> =
                                 DSets::new(dim, max).filter(|ds| ds.size() == n).collect();
-                            enc_sets(&sets, dim)
+                            enc_sets(&sets)
                         },
                     );
                 }
@@ -109,7 +112,7 @@ fn main() {
         for max in (0..=top).rev() {
             let tags = format!(
                 "dim={dim} max={max} oracle={}{}",
-                if max <= ob { "yes" } else { "no" },
+                if max == 0 { "trivial" } else if max <= ob { "yes" } else { "no" },
                 if max >= 2 { " nt" } else { "" }
             );
             ctx.case(
@@ -118,7 +121,7 @@ fn main() {
                 || format!("{dim} {max}"),
                 || {
                     let sets: Vec<SimpleDSet> = DSets::new(dim, max).collect();
-                    enc_sets(&sets, dim)
+                    enc_sets(&sets)
                 },
             );
         }
